@@ -63,15 +63,23 @@ def LeafKind.lang : LeafKind → List Char → Prop
   | .str al, d => al.contains (String.ofList (getString d)) = true
 
 /-- which language the writer's operand inside `<tag>` is in (what `operator<<` prints there: an `int` / `size_t`, a
-    `double`, one of two words; anything for identifiers and free text).  A hand table: it is the CLAIM about the writer;
-    that it is what the reader asks for at every element the writer streams is checked by `absRun`. -/
+    `double`, one of two words; anything for identifiers and free text).  A hand table, CHECKED on both sides: that it is what the
+    reader asks for at every element the writer streams is checked by `absRun`; that it is the kind of the format in force
+    at every site of that name in C12's regenerated format table is `C11_leafKind_is_site_format`
+    (Props/C11AdjResRender.lean). -/
+def intTags : List String :=
+  ["count-xyz", "count-xy", "count-z", "distances", "directions", "angles", "xyz-coords", "h-diffs", "z-angles",
+   "s-dists", "vectors", "azimuths", "equations", "unknowns", "degrees-of-freedom", "defect",
+   "linearization-iterations", "dim", "band", "ind"]
+
+def floatTags : List String :=
+  ["sum-of-squares", "apriori", "aposteriori", "probability", "ratio", "lower", "upper", "confidence-scale",
+   "x", "y", "z", "X", "Y", "Z", "major", "minor", "alpha", "approx", "adj", "flt", "obs", "stdev", "qrr", "f",
+   "std-residual"]
+
 def leafKind (tag : String) : LeafKind :=
-  if ["count-xyz", "count-xy", "count-z", "distances", "directions", "angles", "xyz-coords", "h-diffs", "z-angles",
-      "s-dists", "vectors", "azimuths", "equations", "unknowns", "degrees-of-freedom", "defect",
-      "linearization-iterations", "dim", "band", "ind"].contains tag then .int
-  else if ["sum-of-squares", "apriori", "aposteriori", "probability", "ratio", "lower", "upper", "confidence-scale",
-      "x", "y", "z", "X", "Y", "Z", "major", "minor", "alpha", "approx", "adj", "flt", "obs", "stdev", "qrr", "f",
-      "std-residual"].contains tag then .float
+  if intTags.contains tag then .int
+  else if floatTags.contains tag then .float
   else if tag == "used" then .str ["apriori", "aposteriori"]
   else .any
 
